@@ -11,6 +11,7 @@ import (
 
 	"github.com/free5gc/ike/eap"
 	"github.com/free5gc/ike/message"
+	"github.com/free5gc/ike/security"
 )
 
 func init() {
@@ -676,7 +677,7 @@ func propC20(c *Ctx) {
 	s := c.suite("scribble-after-decode", "oracle",
 		"decode (and unprotect) from an exact buffer, snapshot every payload, overwrite the input buffer (all 0x00, all 0xFF, shifted by one, reversed), compare; then Encode the decoded message 12 times: identical bytes, payloads unchanged; accepted mutated inputs and datagrams carrying EAP-AKA' packets written without the library included; non-trivial = >= 1 payload")
 	s2 := c.suite("encode-pure-deterministic", "oracle",
-		"Encode N times: identical bytes, message payloads unchanged, writes into the returned buffer do not change the message or later encodings; protect: payload list replaced by one SK payload, header fields and the original payload objects unchanged; non-trivial = >= 1 payload")
+		"Encode N times: identical bytes, message payloads unchanged, writes into the returned buffer do not change the message or later encodings; protect (one long-lived SA object per suite): payload list replaced by one SK payload, header fields and the original payload objects unchanged, and the Encrypted payloads of the last three messages protected by the same SA object in either role stay as they were; non-trivial = >= 1 payload")
 	n := c.n(1500, 80000)
 	for i := 0; i < n; i++ {
 		var in []byte
@@ -798,6 +799,14 @@ func (c *Ctx) c20Scribble(s *SuiteStat, in []byte, idx int, k *saKeys, recvRole 
 	}
 }
 
+type c20KeptMsg struct {
+	m    *message.IKEMessage
+	want string
+}
+
+var c20SAs [9]*security.IKESAKey
+var c20Kept [9][2][]c20KeptMsg // per suite and sender role: the last three protected messages
+
 func (c *Ctx) c20Encode(s *SuiteStat, g *Gen, sx *Sx, idx int) {
 	m := buildMsg(sx)
 	before := renderMsg(m).String()
@@ -848,16 +857,38 @@ func (c *Ctx) c20Encode(s *SuiteStat, g *Gen, sx *Sx, idx int) {
 	}
 	// protect
 	if idx%4 == 0 {
-		st := allSuites()[idx/4%9]
-		k := g.saKeys(st)
+		// one long-lived SA object per suite serves all protections of this run, and the messages protected earlier stay
+		// referenced: a later protection must not reach into them
+		si := idx / 4 % 9
+		if c20SAs[si] == nil {
+			c20SAs[si] = newSA(g.saKeys(allSuites()[si]))
+		}
+		for _, kp := range append(append([]c20KeptMsg{}, c20Kept[si][0]...), c20Kept[si][1]...) {
+			if a := renderPayloads(kp.m.Payloads).String(); a != kp.want {
+				c.violate(Violation{Suite: s.Name, Kind: "property", Index: idx, Class: "protect-alters-earlier-message",
+					Desc:  "the Encrypted payload of a message protected EARLIER (same SA object) changed when a later message was protected (replay: re-run of the suite with this seed)",
+					Input: "", Expected: clip(kp.want), Actual: clip(a)})
+				c20Kept[si] = [2][]c20KeptMsg{}
+				return
+			}
+		}
 		m2 := buildMsg(sx)
 		orig := append(message.IKEPayloadContainer{}, m2.Payloads...)
 		origR := renderPayloads(orig).String()
 		hdrR := renderHeader(m2.IKEHeader).String()
-		p, _ := protect(newSA(k), m2, message.Role(idx%8 == 0), g.keyBytesRandom(32), -1)
+		prole := message.Role(idx%8 == 0)
+		p, _ := protect(c20SAs[si], m2, prole, g.keyBytesRandom(32), -1)
 		if p.kind != "ok" {
 			return
 		}
+		ri := 0
+		if prole {
+			ri = 1
+		}
+		if len(c20Kept[si][ri]) >= 3 {
+			c20Kept[si][ri] = c20Kept[si][ri][1:]
+		}
+		c20Kept[si][ri] = append(c20Kept[si][ri], c20KeptMsg{m2, renderPayloads(m2.Payloads).String()})
 		if len(m2.Payloads) != 1 || m2.Payloads[0].Type() != message.TypeSK {
 			c.violate(Violation{Suite: s.Name, Kind: "property", Index: idx, Class: "protect-effect", Desc: "after protect the payload list is not exactly one SK payload", Input: line, Expected: "[SK]", Actual: clip(renderPayloads(m2.Payloads).String())})
 			return
